@@ -919,6 +919,8 @@ class ArgumentParser(ParserDeprecations, ActionsContainer, ArgumentLinking, argp
                 with parser_context(load_value_mode=self.parser_mode):
                     self.validate(strip_meta(cfg), branch=branch)
 
+            pending_writes = []  # nothing is written until everything has been serialised
+
             def save_paths(cfg):
                 for key in cfg.get_sorted_keys():
                     val = cfg[key]
@@ -935,21 +937,21 @@ class ArgumentParser(ParserDeprecations, ActionsContainer, ArgumentLinking, argp
                             else:
                                 is_json = str(val_path).lower().endswith(".json")
                                 val_str = dump_using_format(self, val_out, "json_indented" if is_json else format)
-                            with open(val_path.absolute, "w") as f:
-                                f.write(val_str)
+                            pending_writes.append((val_path.absolute, val_str))
                             cfg[key] = os.path.basename(val_path.absolute)
                     elif isinstance(val, Path) and key in self.save_path_content and "r" in val.mode:
                         val_path = Path(os.path.basename(val.absolute), mode="fc")
                         check_overwrite(val_path)
-                        with open(val_path.absolute, "w") as f:
-                            f.write(val.get_content())
-                        cfg[key] = type(val)(str(val_path))
+                        pending_writes.append((val_path.absolute, val.get_content()))
+                        cfg[key] = os.path.basename(val_path.absolute)
 
             with change_to_path_dir(path_fc), parser_context(parent_parser=self):
                 save_paths(cfg)
             dump_kwargs["skip_validation"] = True
-            with open(path_fc.absolute, "w") as f:
-                f.write(self.dump(cfg, **dump_kwargs))  # type: ignore[arg-type]
+            pending_writes.append((path_fc.absolute, self.dump(cfg, **dump_kwargs)))  # type: ignore[arg-type]
+            for file_path, content in pending_writes:
+                with open(file_path, "w") as f:
+                    f.write(content)
 
     ## Methods related to defaults ##
 
